@@ -144,18 +144,24 @@ static Result judge_grow(const Case& c) {
   auto fail = [&](const std::string& m) { r.ok = false; if (r.msg.empty()) r.msg = std::string(kname(kind)) + ": " + m; };
   for (size_t i = 0; i < n && r.ok; i++) {
     cbor_item_t* x = fresh_elem(kind, i); bool ok; bool already = false;
-    // a refused (allocation-starved) insertion is not a successful operation: the list must stay as it was
-    if (n <= 300 || (i & (i - 1)) == 0) {
-      va::g.fail_from = (int64_t)va::g.requests;
+    // Allocation-starved attempts first.  Mode 0 refuses only the next request (an implementation may fall back to a
+    // smaller growth and still succeed — then it is an ordinary successful insertion); mode 1 refuses every request
+    // (success is then impossible if growth was needed).  A refused insertion is not a successful operation: the list
+    // must stay exactly as it was.
+    for (int mode = 0; mode < 2 && !already && r.ok && (n <= 300 || (i & (i - 1)) == 0); mode++) {
+      if (mode == 0) va::g.fail_at = (int64_t)va::g.requests; else va::g.fail_from = (int64_t)va::g.requests;
       bool okr;
       if (kind == K_INDEFARR) okr = cbor_array_push(cont, x);
       else if (kind == K_INDEFMAP) { struct cbor_pair p{x, x}; okr = cbor_map_add(cont, p); }
       else okr = kind == K_BSTR ? cbor_bytestring_add_chunk(cont, x) : cbor_string_add_chunk(cont, x);
-      bool refused = va::g.refused_fault > 0; va::g.refused_fault = 0;
+      uint64_t nrefused = va::g.refused_fault; bool refused = nrefused > 0; va::g.refused_fault = 0;
       va::reset_faults();
-      vh::counters["growth_refusal_attempts"] += refused; refused_calls += refused;
-      if (refused) {
-        if (okr) fail("insertion " + std::to_string(i) + " reported success although the allocator refused the growth");
+      vh::counters["growth_refusal_attempts"] += refused; refused_calls += nrefused;
+      if (okr) {
+        if (refused && mode == 1) fail("insertion " + std::to_string(i) + " reported success although the allocator refused every request of the growth");
+        already = true;   // inserted (no growth needed, or a fallback after one refusal)
+      } else {
+        if (!refused) { fail("insertion " + std::to_string(i) + " refused by an indefinite container although no allocation was refused"); break; }
         size_t sz = kind == K_INDEFARR ? cbor_array_size(cont) : kind == K_INDEFMAP ? cbor_map_size(cont) : kind == K_BSTR ? cbor_bytestring_chunk_count(cont) : cbor_string_chunk_count(cont);
         if (sz != i) fail("a refused insertion changed the size from " + std::to_string(i) + " to " + std::to_string(sz));
         void* hd = kind == K_INDEFARR ? (void*)cbor_array_handle(cont) : kind == K_INDEFMAP ? (void*)cbor_map_handle(cont) : kind == K_BSTR ? (void*)cbor_bytestring_chunks_handle(cont) : (void*)cbor_string_chunks_handle(cont);
@@ -164,9 +170,9 @@ static Result judge_grow(const Case& c) {
           cbor_item_t* got = kind == K_INDEFARR ? cbor_array_handle(cont)[j] : kind == K_INDEFMAP ? cbor_map_handle(cont)[j].key : kind == K_BSTR ? cbor_bytestring_chunks_handle(cont)[j] : cbor_string_chunks_handle(cont)[j];
           if (got != model[j]) fail("a refused insertion changed element " + std::to_string(j));
         }
-        if (!r.ok) break;
-      } else if (okr) already = true;   // no growth was needed: the insertion simply succeeded
+      }
     }
+    if (!r.ok) break;
     if (already) ok = true;
     else if (kind == K_INDEFARR) ok = cbor_array_push(cont, x);
     else if (kind == K_INDEFMAP) { struct cbor_pair p{x, x}; ok = cbor_map_add(cont, p); }
